@@ -349,10 +349,54 @@ def r20_3(ctx):
     s = repo.func(f"{DOC}:_sym_has_visible_prompted_node")
     ctx.analysed(h.qual, s.qual)
     construct = "_has_docs_anchor/true only if a prompted node (or its parent choice) is visible for the target"
-    src = ast.unparse(s.node)
-    ok = "if not node.prompt:\n            continue" in src.replace("    ", "    ") or "if not node.prompt:" in src
-    ok = ok and "visibility.visible(parent)" in src and "visibility.visible(node)" in src and "_sym_has_visible_prompted_node(sym, visibility)" in ast.unparse(h.node)
-    (ctx.ok(construct, h.loc(), nontrivial=False) if ok else ctx.bad(construct, "anchor predicate changed", h.loc()))
+    # every visibility question of the predicate is asked about the node that carries the anchor: the parent choice for a
+    # choice member, the node itself otherwise, and only for nodes with a prompt; True is returned only on a positive answer
+    from .common import expand_locals, facts_vs_formula
+    from ..flow import canon_atom, decompose
+    res = Resolver(s.node)
+    fs = Flow(s.node, resolver=res).run()
+    MEMBER = "node.parent is not None and type(node.parent.item) is kconfiglib.Choice"
+    msgs = []
+    asks = [n for n in ast.walk(s.node) if isinstance(n, ast.Call) and ast.unparse(n.func) == "visibility.visible" and n.args]
+    if not asks:
+        msgs.append("the predicate no longer asks the target visibility")
+    for c in asks:
+        gs = set(fs.guards_at(c) or ())
+        if not any(k in ("node.prompt", "loop[*].prompt", "sym.nodes[*].prompt") and p for k, p in gs):
+            msgs.append(f"`{ast.unparse(c)}` is asked for nodes without a prompt")
+        cases = []
+        stack = [(res.resolve(c.args[0]), set())]
+        while stack:
+            e, extra = stack.pop()
+            if isinstance(e, ast.IfExp):
+                stack.append((e.body, extra | {canon_atom(res, x, q) for x, q in decompose(e.test, True)}))
+                stack.append((e.orelse, extra | {canon_atom(res, x, q) for x, q in decompose(e.test, False)}))
+            else:
+                cases.append((ast.unparse(e), extra))
+        for tgt, extra in cases:
+            facts = {(k.replace("sym.nodes[*]", "node").replace("loop[*]", "node"), p) for k, p in (gs | extra)}
+            facts = {(k, p) for k, p in facts if "parent" in k}
+            t = tgt.replace("sym.nodes[*]", "node").replace("loop[*]", "node")
+            if t == "node.parent":
+                if not facts_vs_formula(facts, MEMBER)[0]:
+                    msgs.append("the parent's visibility is asked for a node that is not a choice member")
+            elif t == "node":
+                if not facts_vs_formula(facts, f"not ({MEMBER})")[0]:
+                    msgs.append("a choice member's own node decides although its anchor is written under the parent choice")
+            else:
+                msgs.append(f"visibility asked for `{tgt}`")
+    for r in [n for n in ast.walk(s.node) if isinstance(n, ast.Return) and n.value is not None]:
+        v = ast.unparse(r.value)
+        if v == "False":
+            continue
+        if v == "True":
+            if not any(k.startswith("visibility.visible(") and p for k, p in (fs.guards_at(r) or set())):
+                msgs.append("True is returned without a positive visibility answer")
+        elif not v.startswith("visibility.visible("):
+            msgs.append(f"returns `{v[:60]}`")
+    if "_sym_has_visible_prompted_node(sym, visibility)" not in ast.unparse(h.node):
+        msgs.append("_has_docs_anchor no longer defers to _sym_has_visible_prompted_node")
+    (ctx.ok(construct, h.loc(), asks=len(asks)) if not msgs else ctx.bad(construct, "; ".join(sorted(set(msgs))), s.loc()))
 
 
 def r20_5(ctx):
